@@ -138,7 +138,8 @@ var probes = []struct{ entry, text string }{
 	{"ParseQuery", "SELECT * EXCEPT (a, b) FROM t"}, {"ParseQuery", "SELECT * REPLACE (1 AS a) FROM t"}, {"ParseQuery", "SELECT 1,"}, {"ParseQuery", "SELECT 1, FROM t"},
 	{"ParseQuery", "SELECT * FROM a HASH JOIN b ON true"}, {"ParseQuery", "SELECT * FROM a LOOKUP JOIN b ON true"}, {"ParseQuery", "SELECT * FROM f(1) TABLESAMPLE BERNOULLI (1 PERCENT)"},
 	{"ParseQuery", "SELECT * FROM t TABLESAMPLE RESERVOIR (1 ROWS)"}, {"ParseQuery", "SELECT 1 FOR UPDATE"}, {"ParseQuery", "(SELECT 1) UNION ALL (SELECT 2)"},
-	{"ParseQuery", "SELECT a.* EXCEPT (b) FROM t"}, {"ParseQuery", "FROM t |> SELECT a |> WHERE a"}, {"ParseQuery", "SELECT 1 FROM ((SELECT 1)"},
+	{"ParseQuery", "SELECT a.* EXCEPT (b) FROM t"}, {"ParseQuery", "SELECT 1 .* FROM t"}, {"ParseQuery", "SELECT a + 1 .* FROM t"}, {"ParseQuery", "SELECT -1 .* FROM t"},
+	{"ParseQuery", "SELECT t1.*, a.1.*, 0x1 .*, 1e-5 .*, 1.5 .*, .5 .* FROM t"}, {"ParseQuery", "SELECT 1 .f, -1 .f, a - 1 .f FROM t"}, {"ParseQuery", "FROM t |> SELECT a |> WHERE a"}, {"ParseQuery", "SELECT 1 FROM ((SELECT 1)"},
 	{"ParseType", "`INT64`"}, {"ParseType", "ARRAY<STRUCT<a INT64, b ARRAY<STRING>>>"}, {"ParseType", "ARRAY<"}, {"ParseType", "STRUCT<a ARRAY<INT64>>"}, {"ParseType", "a.b.c"},
 	{"ParseDDL", "CREATE CHANGE STREAM s FOR ALL"}, {"ParseDDL", "CREATE CHANGE STREAM s FOR t(a, b), u"}, {"ParseDDL", "ALTER CHANGE STREAM s SET x"}, {"ParseDDL", "ALTER SEQUENCE s"},
 	{"ParseDDL", "CREATE SEQUENCE s BIT_REVERSED_POSITIVE SKIP RANGE 1, 2 START COUNTER WITH 3"}, {"ParseDDL", "CREATE SEQUENCE s BIT_REVERSED_POSITIVE SKIP RANGE 1, 2 START COUNTER WITH 3 OPTIONS (a = 1)"}, {"ParseDDL", "CREATE TABLE t (a INT64 DEFAULT (1)) PRIMARY KEY (a)"},
